@@ -333,13 +333,15 @@ package parse
 // errors turn into lines of the file text (SoyFileNode.Text, Registry.LineNumber),
 // are offsets into that very text.
 //@ func lexExpr
-//@   props C05 C18 C19
+//@   props C05 C18 C19 C13
+//@   note goroutine (*lexer).run: one producer (the scanner), one consumer (the parser), an unbuffered channel: tokens arrive in the scanner's emission order, and the scanner is sequential code under its own contracts
 //@   pure
 //@   ensures[scans-the-given-text-under-the-given-name;C19] result != nil && fresh(result) && same(result.input, input) && same(result.name, name)
 //@   ensures len(result.input) == len(input)
 //@   trustedensures result.recv == 0 && !result.done && ntoks(result) >= 1
 //@ func lex
-//@   props C05 C18 C19
+//@   props C05 C18 C19 C13
+//@   note goroutine (*lexer).run: one producer (the scanner), one consumer (the parser), an unbuffered channel: tokens arrive in the scanner's emission order, and the scanner is sequential code under its own contracts
 //@   pure
 //@   ensures[scans-the-given-text-under-the-given-name;C19] result != nil && fresh(result) && same(result.input, input) && same(result.name, name)
 //@   ensures len(result.input) == len(input)
@@ -657,9 +659,15 @@ package parse
 //@   like parserFn
 //@   measure rem(t), 4
 
+// C02: in {call a.b.c} an alias stands for the FIRST segment of the dotted name
+// ({alias foo.bar.baz} makes baz.qux.hello mean foo.bar.baz.qux.hello): the
+// name is cut at its first dot (strings.Index) and what follows the alias is
+// kept.
 //@ func (*tree).parseCall
 //@   like parserFn
 //@   measure rem(t), 4
+//@   at call strings.Index#0 assert[alias-is-what-precedes-the-first-dot;C02] same(arg0, templateName) && arg1 == "."
+//@   at call strings.LastIndex#* forbid[alias-is-what-precedes-the-first-dot;C02] false
 //@   loop 0
 //@     invariant stepOK(t) && afterNext(t) && t.aliases != nil && tokAt(tokn, cursor(t) - 1, t.lex) && cursor(t) >= old(cursor(t)) + 1
 //@     decreases ntoks(t.lex) - cursor(t)
